@@ -414,6 +414,10 @@ impl Debugger {
             Debugee::new_non_running(program_path, &process, &object)?
         };
 
+        // the process-wide call cache is keyed by function name only,
+        // entries of a previous debugee must not be served to this one
+        context::gcx().with_call_cache(|cc| cc.clear());
+
         Ok(Self {
             debugee,
             process,
@@ -729,6 +733,7 @@ impl Debugger {
         }
 
         self.process = self.process.install()?;
+        context::gcx().with_call_cache(|cc| cc.clear());
 
         let new_debugee = self.debugee.extend(self.process.pid());
         _ = mem::replace(&mut self.debugee, new_debugee);
